@@ -253,10 +253,10 @@ theorem rotate_wf {m m' : MeshVal (List s)} (h : WF m) {n : String} {q : quatern
     (hm : m.rotate n q = some m') : WF m' := MeshVal.mapAttr_wf h hm
 theorem applyTRS_wf {m m' : MeshVal (List s)} (h : WF m) {t : trs.TRS s}
     (hm : m.applyTRS t = some m') : WF m' := MeshVal.mapAttr_wf h hm
-theorem center_wf {m m' : MeshVal (List s)} (h : WF m) {n : String}
-    (hm : m.center n = some m') : WF m' := MeshVal.center_wf h hm
-theorem normalize_wf {m m' : MeshVal (List s)} (h : WF m) {init : s} {n : String}
-    (hm : MeshVal.normalize init m n = some m') : WF m' := MeshVal.normalize_wf h hm
+theorem center_wf {m m' : MeshVal (List s)} (h : WF m) {mn mx : s → s → s} {n : String}
+    (hm : MeshVal.center mn mx m n = some m') : WF m' := MeshVal.center_wf h hm
+theorem normalize_wf {m m' : MeshVal (List s)} (h : WF m) {init : s} {mx : s → s → s} {n : String}
+    (hm : MeshVal.normalize init mx m n = some m') : WF m' := MeshVal.normalize_wf h hm
 theorem smoothNormals_wf {m m' : MeshVal (List s)} (h : WF m)
     (hm : m.smoothNormals = some m') : WF m' := MeshVal.smoothNormals_wf h hm
 theorem flatNormals_wf {m m' : MeshVal (List s)} (h : WF m)
